@@ -9,7 +9,7 @@ import core
 import fsutil
 from core import S, Check, unstr
 
-KEYS = ["a", "b", "c", "K", "k y", "k.z", "0", "é", "x_1", "a[0]"]
+KEYS = ["a", "b", "c", "K", "k y", "k.z", "0", "é", "x_1", "a[0]", "A", "k", "B"]   # case variants: element names are case-sensitive
 STRS = ["x", "x y", "Str", "", "it's", 'q"t', "a\\b", "é\U0001F600", " pad ", "1", "true", "null"]
 IDENT = re.compile(r"^[A-Za-z_][A-Za-z0-9_]*$")
 
